@@ -12,6 +12,15 @@ func (h *hist) pick(n int) int { return h.rng.IntN(n) }
 
 func (h *hist) chance(pct int) bool { return h.rng.IntN(100) < pct }
 
+// pickRange picks a byte range for LOCK/LOCKU/LOCKT; now and then the
+// malformed one.
+func (h *hist) pickRange() int {
+	if h.chance(5) {
+		return invalidRange
+	}
+	return h.pick(invalidRange)
+}
+
 func (c *client) ownerKey(i int) string     { return fmt.Sprintf("%s-oo%d", c.name, i) }
 func (c *client) lockOwnerKey(i int) string { return fmt.Sprintf("%s-lo%d", c.name, i) }
 
@@ -178,13 +187,18 @@ func (h *hist) randomStep() {
 		h.downgrade(c, os.sid, fhLeaf(os.leaf), uint32(1+h.pick(3)), 0, 0, h.validVariant(os))
 	case x < 49:
 		os := opens[h.pick(len(opens))]
-		h.lock(c, lockParams{newOwner: true, openSid: os.sid, loKey: c.lockOwnerKey(h.pick(2)), fh: fhLeaf(os.leaf), rangeIdx: h.pick(len(lockRanges)), write: h.chance(50), variant: h.validVariant(os)})
+		p := lockParams{newOwner: true, openSid: os.sid, loKey: c.lockOwnerKey(h.pick(2)), fh: fhLeaf(os.leaf), rangeIdx: h.pickRange(), write: h.chance(50), variant: h.validVariant(os)}
+		if c.ver == 0 && p.variant == "valid" && h.chance(6) {
+			p.lockSeqDelta = uint32(2 + h.pick(3))
+			p.variant = "bad-lock-owner-seqid"
+		}
+		h.lock(c, p)
 	case x < 54 && len(locks) > 0:
 		ls := locks[h.pick(len(locks))]
-		h.lock(c, lockParams{lockSid: ls.sid, fh: fhLeaf(ls.os.leaf), rangeIdx: h.pick(len(lockRanges)), write: h.chance(50), variant: "valid"})
+		h.lock(c, lockParams{lockSid: ls.sid, fh: fhLeaf(ls.os.leaf), rangeIdx: h.pickRange(), write: h.chance(50), variant: "valid"})
 	case x < 60 && len(locks) > 0:
 		ls := locks[h.pick(len(locks))]
-		h.unlock(c, ls.sid, fhLeaf(ls.os.leaf), h.pick(len(lockRanges)), 0, "valid")
+		h.unlock(c, ls.sid, fhLeaf(ls.os.leaf), h.pickRange(), 0, "valid")
 	case x < 64 && len(locks) > 0:
 		ls := locks[h.pick(len(locks))]
 		if c.ver == 0 {
@@ -198,10 +212,16 @@ func (h *hist) randomStep() {
 		h.randomIO(c, opens, locks, true)
 	case x < 87:
 		h.remove(c, fileNames[h.pick(len(fileNames))])
-	case x < 90:
+	case x < 89:
 		if ls := h.w.allLeaves(); len(ls) > 0 {
 			h.probe(c, ls[h.pick(len(ls))])
 		}
+	case x < 90:
+		fh := fhRoot
+		if ls := h.resolvableLeaves(); len(ls) > 0 && h.chance(90) {
+			fh = fhLeaf(ls[h.pick(len(ls))])
+		}
+		h.lockt(c, fh, c.lockOwnerKey(h.pick(3)), h.pickRange(), h.chance(50))
 	case x < 92:
 		if ls := h.resolvableLeaves(); len(ls) > 0 {
 			l := ls[h.pick(len(ls))]
@@ -448,7 +468,7 @@ func (h *hist) hostile(c *client) {
 			func() { h.closeState(c, sid, fh, seqDelta, mut) },
 			func() { h.downgrade(c, sid, fh, accRead, 0, seqDelta, mut) },
 			func() {
-				p := lockParams{newOwner: true, openSid: sid, loKey: c.lockOwnerKey(2 + h.pick(2)), fh: fh, rangeIdx: h.pick(len(lockRanges)), openSeqDelta: seqDelta, variant: mut}
+				p := lockParams{newOwner: true, openSid: sid, loKey: c.lockOwnerKey(2 + h.pick(2)), fh: fh, rangeIdx: h.pickRange(), openSeqDelta: seqDelta, variant: mut}
 				h.lock(c, p)
 			},
 		)
@@ -458,9 +478,9 @@ func (h *hist) hostile(c *client) {
 	} else {
 		ops = append(ops,
 			func() {
-				h.lock(c, lockParams{lockSid: sid, fh: fh, rangeIdx: h.pick(len(lockRanges)), lockSeqDelta: seqDelta, variant: mut})
+				h.lock(c, lockParams{lockSid: sid, fh: fh, rangeIdx: h.pickRange(), lockSeqDelta: seqDelta, variant: mut})
 			},
-			func() { h.unlock(c, sid, fh, h.pick(len(lockRanges)), seqDelta, mut) },
+			func() { h.unlock(c, sid, fh, h.pickRange(), seqDelta, mut) },
 		)
 	}
 	if c.ver == 1 {
